@@ -26,6 +26,12 @@ CHECKS = {
     "C08": ("pbt-values", "generated (unit pair, rep pair) instances from the gcd-unit model; exhaustive 8-bit x 8/16-bit operand pairs, enumerated edge grids and rapidcheck draws (equal / off-by-one / overflow-edge classes) vs 128-bit exact ordering, sum, difference, remainder; <=> under C++20; float instances with 4/8-ulp bands; negative probes for forms the policy must refuse",
             "Exploration: exact agreement on billions of operand pairs per run for the sampled instances, under ASan+UBSan; instances restricted to those the conversion policy accepts (model-predicted, and that prediction is itself checked by compiling).",
             "trusts 128-bit integer oracle and long double for the floating band; precondition: scaled operands fit the common rep", "4/C08"),
+    "C05": ("pbt-values", "generated (source rep, target rep, factor) instances over all 121 rep pairs; exhaustive 8/16-bit sources, stage-threshold neighbourhoods, nextafter neighbours of every target limit, NaN/inf/denormals/raw bit patterns via rapidcheck; exact staged pipeline oracle (128-bit) for integers, exact judgement of the library's scaled floating value for floating sources; UBSan float-cast-overflow",
+            "Exploration of soundness: cleared => every stage in range and result exact / value-preserving; uncastable => reported lossy; integral-source overflow => some stage really out of range. One known finding (F9) excluded by construction with a pinned reproducer.",
+            "trusts 128-bit/long double oracle; truncation answers only in the soundness direction; checkers' own UB on overflowing inputs (O1) is not asserted", "4/C05"),
+    "C06": ("pbt-programs", "Hypothesis-generated (R1,R2,ratio) cases around every 2147-threshold compiled as static_assert blocks that must compile whatever the answer (totality) and answer as the model predicts (is_convertible/constructible/assignable, overload-resolution probe, common_type detection, QuantityPoint pairs); generated UBSan programs convert all |x|<=2147 for permitted integral cases; negative probes for unit-only as/in",
+            "Exploration: enumerated grid of 10x10 reps x threshold-straddling factors plus random smooth ratios, every case judged individually under two configurations per run (rotating).",
+            "trusts the documented predicate as model (reps.implicit_ok) and 128-bit products", "4/C06"),
 }
 ENGINES = [
     {"name": "pbt-programs", "path": "auverif/hyp.py", "kind_free_text": "Hypothesis-generated translation units judged by compiler verdict / static_assert / program output against an independent Python model",
